@@ -571,20 +571,32 @@ load_basic(Archive &ar, RCP<const T> &,
     ar(num, den);
     return addnum(num, mulnum(I, den));
 }
+// A bool is stored as one byte. Reading any other value than 0 or 1 into a
+// `bool` is undefined behaviour, so read the byte and validate it.
+template <class Archive>
+bool load_bool(Archive &ar)
+{
+    uint8_t val;
+    ar(val);
+    if (val >= 2) {
+        throw SerializationError("Invalid boolean value");
+    }
+    return val == 1;
+}
 template <class Archive>
 RCP<const Basic> load_basic(Archive &ar, RCP<const Interval> &)
 {
     RCP<const Number> start, end;
-    bool left_open, right_open;
-    ar(left_open, start, right_open, end);
+    bool left_open = load_bool(ar);
+    ar(start);
+    bool right_open = load_bool(ar);
+    ar(end);
     return make_rcp<const Interval>(start, end, left_open, right_open);
 }
 template <class Archive>
 RCP<const Basic> load_basic(Archive &ar, RCP<const BooleanAtom> &)
 {
-    bool val;
-    ar(val);
-    return boolean(val);
+    return boolean(load_bool(ar));
 }
 template <class Archive>
 RCP<const Basic> load_basic(Archive &ar, RCP<const And> &)
